@@ -10,6 +10,7 @@ PROP = {
         "State() polling and the state-change notification are used only to PLACE harness events (when to call, when to deselect), never as the judged observation",
     ],
     "assumptions": [
+        "translator: hsms.IsValidSType and the SType / reject-reason / status / state constants are regenerated from /repo into Gen.v and bridged to the model (Gen/BridgeSendCore.v)",
         "atomicity of the LTS steps as read from the code (DESIGN.md Appendix A.2): B1 and B2 are each ONE read of the supervisor state word; dispatchFrame runs on one goroutine, so its select commit precedes the dispatch of the next frame",
         "the supervisor state word changes only at the three synchronous commits and at disconnect/close steps (C05_causes) - the pinned tree violated this when a commit echo was replayed (DESIGN.md §5 #1), repaired in /repo by 737422e; the e2e row deselected-fast is the regression case (finding C07-deselect-replay, fixed)",
         "byte-level regrouping of the peer's stream is the reader's business (C04_segmentation); the model hands the dispatcher whole frames in stream order, the e2e pass cuts the byte string at every offset",
